@@ -832,8 +832,18 @@ func (vm *VirtualMachine) callFunction(
 	baseIP := vm.ip
 	baseSP := vm.sp
 
-	// Restore the previous frame when done
-	defer vm.resumeFrame(baseFP, baseIP, baseSP)
+	// Restore the previous frame when done. When the call failed there is no
+	// frame result: whatever the abandoned frame left on the stack is dropped,
+	// so that a caller that handles the error (e.g. try) finds the stack as
+	// it was before the call.
+	defer func() {
+		vm.resumeFrame(baseFP, baseIP, baseSP)
+		if resultErr != nil {
+			for vm.sp > baseSP {
+				vm.pop()
+			}
+		}
+	}()
 
 	// Assemble frame local variables in vm.tmp. The local variable order is:
 	// 1. Function parameters
